@@ -14,6 +14,10 @@ pub struct CbState {
     pub logging: bool,
     pub probe_id: u32,
     pub next_id: u32,
+    /// high-volume runs (no logging): the time of the running operation of an expiring collection; a comparison on
+    /// a stored key whose expiration is not above it sets `stale_cmp` (C20)
+    pub live_time: Option<i64>,
+    pub stale_cmp: bool,
 }
 
 thread_local! {
@@ -38,6 +42,11 @@ pub fn cb_take() -> (usize, Vec<(char, i64, i64)>) {
     })
 }
 
+/// arm (`Some(time)`) or disarm the live-key check of comparisons; returns whether a stale key was compared since
+pub fn live_check(t: Option<i64>) -> bool {
+    CB.with(|c| { let mut c = c.borrow_mut(); let r = c.stale_cmp; c.stale_cmp = false; c.live_time = t; r })
+}
+
 pub fn set_probe(id: u32) {
     CB.with(|c| c.borrow_mut().probe_id = id);
 }
@@ -59,6 +68,7 @@ fn cb_event(kind: char, k: i64, exp: i64) {
         if c.logging {
             c.log.push((kind, k, exp));
         }
+        if kind == 'c' { if let Some(t) = c.live_time { if exp <= t { c.stale_cmp = true; } } }
         c.inject_at == Some(idx)
     });
     if fire {
